@@ -435,6 +435,22 @@ func VerifH11d() {
 		vReach("oversized-inside")
 	}
 	session := vCat(vStartup(vKV([]byte("user"), []byte("u"))), msg, vMsgBytes('Q', vCStr([]byte("q"))), vMsgBytes('X', nil))
+	// BIGSTARTUP > 0: the limit is 32768 and the start-up packet carries a user
+	// name of that many bytes (beyond any bound another implementation knows for
+	// start-up packets, below this server's limit): accepted or refused, the two
+	// runs agree
+	limit := 64
+	if bs := vParam("BIGSTARTUP", 0); bs > 0 {
+		limit = 32768
+		name := make([]byte, bs)
+		for i := range name {
+			name[i] = 'u'
+		}
+		name[bs-1] = nondetByte()
+		vAssume(name[bs-1] != 0)
+		session = vCat(vStartup(vKV([]byte("user"), name)), vMsgBytes('Q', vCStr([]byte("q"))), vMsgBytes('X', nil))
+		vReach("start-up-packet-of-more-than-ten-thousand-bytes")
+	}
 	type run struct {
 		w     *vWorld
 		srv   *Server
@@ -442,7 +458,7 @@ func VerifH11d() {
 	}
 	mk := func(withTLS bool) *run {
 		r := &run{w: &vWorld{parseMenu: -2, execMenu: 1}}
-		opts := []OptionFn{MessageBufferSize(64), SessionMiddleware(func(ctx context.Context) (context.Context, error) {
+		opts := []OptionFn{MessageBufferSize(limit), SessionMiddleware(func(ctx context.Context) (context.Context, error) {
 			r.users = append(r.users, []byte(ClientParameters(ctx)[ParamUsername]))
 			return ctx, nil
 		})}
